@@ -7,6 +7,7 @@ package main
 // handlers are called one at a time, in a fixed order, by vwPump. One client op per line, one output line per op.
 
 import (
+	"strconv"
 	"encoding/json"
 	"fmt"
 	"sort"
@@ -37,6 +38,20 @@ type vWorld struct {
 	sessLvl map[string]auth.Level
 	uaTimers map[*Topic]*time.Timer
 	curUA  map[*Topic]*string
+	closing []string            // frames sent to sessions as they were told to stop (eviction)
+	created map[types.Uid]bool  // accounts which were created (a `state=missing` name never was)
+	deleted map[types.Uid]bool  // accounts which were deleted since
+}
+
+// the registry of sessions (SessionStore.sessCache): every session of the stream is a connection
+func (w *vWorld) registerSessions() {
+	ss := globals.sessionStore
+	ss.lock.Lock()
+	ss.sessCache = map[string]*Session{}
+	for sn, s := range w.sess {
+		ss.sessCache[sn] = s
+	}
+	ss.lock.Unlock()
 }
 
 var vw *vWorld
@@ -84,6 +99,21 @@ func vwReset(maxSubs int) {
 	globals.cluster = nil
 	globals.immutableTagNS = map[string]bool{"basic": true}
 	globals.maskedTagNS = map[string]bool{"rest": true}
+	// owned topics are listed in the order they were made (T1, T2, …)
+	vmemTopicLess = func(a, b string) bool {
+		ord := func(n string) int {
+			if vw != nil {
+				if k, err := strconv.Atoi(strings.TrimPrefix(vw.tnames[n], "T")); err == nil {
+					return k
+				}
+			}
+			return 1 << 30
+		}
+		return ord(a) < ord(b)
+	}
+	globals.sessionStore.lock.Lock()
+	globals.sessionStore.sessCache = map[string]*Session{}
+	globals.sessionStore.lock.Unlock()
 	vw = &vWorld{ad: ad, users: map[string]types.Uid{}, unames: map[types.Uid]string{}, sess: map[string]*Session{},
 		tnames: map[string]string{}, treal: map[string]string{}, uaTimers: map[*Topic]*time.Timer{}, curUA: map[*Topic]*string{}}
 }
@@ -934,6 +964,130 @@ func (w *vWorld) dispatch(s *Session, msg *ClientComMessage) {
 	w.crashK = 0
 }
 
+// sessions which were told to stop (Session.stopSession with the closing message): the write loop would send the message and
+// close the connection, the read loop would then run cleanUp. Returns the frames sent that way.
+func (w *vWorld) stopEvicted() {
+	for _, sn := range w.order {
+		s := w.sess[sn]
+		stopped := false
+		for len(s.stop) > 0 {
+			data := <-s.stop
+			stopped = true
+			if b, ok := data.([]byte); ok {
+				var m ServerComMessage
+				if json.Unmarshal(b, &m) == nil {
+					w.closing = append(w.closing, sn+"<-"+w.renderMsg(&m))
+				} else {
+					w.closing = append(w.closing, sn+"<-raw")
+				}
+			}
+		}
+		if stopped {
+			s.bkgTimer.Stop()
+			s.unsubAll()
+		}
+	}
+}
+
+// {del what=user}: replyDelUser (user.go:595-689) runs in the session's goroutine and waits for the hub to stop the user's topics.
+// Here it runs in a goroutine of its own; this goroutine plays the hub (stopTopicsForUser, hub.go:577-611), the topics and the
+// evicted sessions while replyDelUser waits, and waits while replyDelUser runs: the two never run at the same time.
+// The schedule chosen: the evicted sessions clean up first, then the topics are stopped.
+func (w *vWorld) delUser(s *Session, msg *ClientComMessage) {
+	if w.failK > 0 {
+		w.ad.vmemArm(w.failK)
+	}
+	w.ad.Calls = nil
+	h := globals.hub
+	fin := make(chan struct{})
+	var crashed any
+	go func() {
+		defer close(fin)
+		defer func() {
+			// a panic of the handler is reported like one of any other request: from the goroutine which runs the stream
+			if r := recover(); r != nil {
+				crashed = r
+			}
+		}()
+		s.dispatch(msg)
+	}()
+	var unreg *topicUnreg
+	select {
+	case <-fin:
+	case unreg = <-h.unreg:
+	}
+	defer func() {
+		if crashed != nil {
+			panic(crashed)
+		}
+	}()
+	if unreg != nil {
+		w.stopEvicted()
+		w.pump()
+		reason := StopNone
+		if unreg.del {
+			reason = StopDeleted
+		}
+		uid := unreg.forUser
+		done := make(chan bool, 128)
+		count := 0
+		for _, topic := range w.loadedTopics() {
+			if _, isMember := topic.perUser[uid]; (topic.cat != types.TopicCatGrp && isMember) || topic.owner == uid {
+				topic.markDeleted()
+				h.topics.Delete(topic.name)
+				topic.exit <- &shutDown{reason: reason, done: done}
+				if topic.cat == types.TopicCatP2P && len(topic.perUser) == 2 {
+					presSingleUserOfflineOffline(topic.p2pOtherUser(uid), uid.UserId(), "gone", nilPresParams, "")
+				}
+				vwExiting = append(vwExiting, topic)
+				count++
+			}
+		}
+		w.pump()
+		for i := 0; i < count; i++ {
+			<-done
+		}
+		unreg.done <- true
+		<-fin
+	}
+	w.pump()
+	w.stopEvicted()
+	w.pump()
+	w.ad.vmemDisarm()
+	w.ad.CrashAfter = 0
+	w.failK = 0
+	w.crashK = 0
+	// an evicted session object stands for the next connection of the same user
+	w.registerSessions()
+	// the sessions of an account which is not there any more cannot log in again
+	for _, sn := range w.order {
+		x := w.sess[sn]
+		if !x.uid.IsZero() && w.accountGone(x.uid) {
+			x.uid = types.ZeroUid
+			x.authLvl = auth.LevelNone
+		}
+	}
+}
+
+// the account was deleted (hard: no record; soft: marked) - an account which never existed (`state=missing`) is not "gone"
+func (w *vWorld) accountGone(uid types.Uid) bool {
+	if w.deleted[uid] {
+		return true
+	}
+	if !w.created[uid] {
+		return false
+	}
+	u := w.ad.Users[uid]
+	if u == nil || u.State == types.StateDeleted {
+		if w.deleted == nil {
+			w.deleted = map[types.Uid]bool{}
+		}
+		w.deleted[uid] = true
+		return true
+	}
+	return false
+}
+
 func (w *vWorld) asUidOf(s *Session, kv map[string]string) types.Uid {
 	if as, ok := kv["as"]; ok {
 		if uid, ok := w.users[strings.SplitN(as, ":", 2)[0]]; ok {
@@ -985,6 +1139,12 @@ func (w *vWorld) op(ws []string) (string, bool) {
 		}
 		w.users[ws[1]] = uid
 		w.unames[uid] = ws[1]
+		if kv["state"] != "missing" {
+			if w.created == nil {
+				w.created = map[types.Uid]bool{}
+			}
+			w.created[uid] = true
+		}
 		w.ad.Calls = nil // set-up is not part of any request
 		return "ok", true
 	case "sess":
@@ -1006,6 +1166,7 @@ func (w *vWorld) op(ws []string) (string, bool) {
 		}
 		w.sessLvl[ws[1]] = s.authLvl
 		w.order = append(w.order, ws[1])
+		w.registerSessions()
 		return "ok", true
 	case "fail":
 		w.failK, _ = vInt(ws[1])
@@ -1178,6 +1339,17 @@ func (w *vWorld) op(ws []string) (string, bool) {
 	case "deltopic":
 		del := &MsgClientDel{Id: "1", Topic: w.realTopic(ws[2], w.asUidOf(s, kv)), What: "topic", Hard: kv["hard"] == "1"}
 		w.dispatch(s, &ClientComMessage{Del: del, Extra: w.extra(kv)})
+	case "deluser":
+		// deluser S1 [user=U2] [hard=1]: {del what=user}
+		del := &MsgClientDel{Id: "1", What: "user", Hard: kv["hard"] == "1"}
+		if kv["user"] != "" {
+			if uid, ok := w.users[kv["user"]]; ok {
+				del.User = uid.UserId()
+			} else {
+				del.User = kv["user"]
+			}
+		}
+		w.delUser(s, &ClientComMessage{Del: del, Extra: w.extra(kv)})
 	case "fg":
 		// background session's timer fired (writeLoop: only a session which still is in the background reacts)
 		if s.background {
@@ -1238,6 +1410,10 @@ func (w *vWorld) op(ws []string) (string, bool) {
 			s := w.sess[sn]
 			s.uid = w.sessUid[sn]
 			s.authLvl = w.sessLvl[sn]
+			if w.accountGone(s.uid) {
+				s.uid = types.ZeroUid
+				s.authLvl = auth.LevelNone
+			}
 			s.subsLock.Lock()
 			s.subs = make(map[string]*Subscription)
 			s.subsLock.Unlock()
@@ -1253,8 +1429,10 @@ func (w *vWorld) op(ws []string) (string, bool) {
 		return "", false
 	}
 	frames := w.drainSessions()
+	frames = append(frames, w.closing...)
+	w.closing = nil
 	pushes := w.drainUsersUpdate()
-	if ws[0] == "drop" || ws[0] == "fg" {
+	if ws[0] == "drop" || ws[0] == "fg" || ws[0] == "deluser" {
 		// unsubAll and the background timer walk the session's map of subscriptions: the order in which the topics learn about
 		// it is not defined
 		sort.Strings(frames)
